@@ -64,11 +64,13 @@ type specChunk struct {
 }
 
 var specChunks []specChunk
+var specChunksOnce sync.Once
 
 func (w *World) buildSpecChunks() {
-	if specChunks != nil {
-		return
-	}
+	specChunksOnce.Do(w.buildSpecChunksLocked)
+}
+
+func (w *World) buildSpecChunksLocked() {
 	for _, blk := range strings.Split(w.Contracts.specText, "\n\n") {
 		if strings.TrimSpace(blk) == "" {
 			continue
